@@ -15,6 +15,8 @@ import IocProofs.Lemmas.ConcWait
 import IocProofs.Lemmas.ConcNames
 import IocProofs.Lemmas.ConcEntry
 import IocProofs.Lemmas.ConcNinth
+import IocProofs.Lemmas.SemDelegate
+import IocProofs.Lemmas.SemMisc
 
 namespace Ioc.C14
 open Ioc.Conc
@@ -406,5 +408,18 @@ example : Reach cfg 6 (fun j => (18 : Nat).testBit ((List.range 6).getD j 0))
       (schedule cfg 6 (fun j => (18 : Nat).testBit ((List.range 6).getD j 0)) 320 62 init) ∧
     mainReturned (schedule cfg 6 (fun j => (18 : Nat).testBit ((List.range 6).getD j 0)) 320 62 init) :=
   ⟨schedule_sound cfg 6 _ 320 62 init, by unfold mainReturned; decide⟩
+
+/-- "every closer registered with the App" reaches `CloserComponents` through ordinary injection: ResolveAfterInstantiation
+    (regenerated, `C12_code_ResolveAfterInstantiation`) calls EVERY InstantiationAware processor in chain order — a processor
+    that answers false only skips ITS OWN PostProcessProperties, the later ones (the dependency processors that fill the
+    App's slices) still run — and fas.Filter (regenerated, `C06_code_fasFilter`) returns a NEW list, leaving its argument
+    as it was -/
+theorem C14_code_population_reaches_closers (procs : List Nat) (isInst : Nat → Bool) (res : Nat → Order.Step) (errOk : Nat → Bool)
+    (g : Nat → Bool) (l : List Nat) :
+    Go.run (Sem.raiPrims procs isInst res errOk) Progs.del_ResolveAfterInstantiation [.str "meta", .str "n"] [] =
+      some (if (Order.resolveAfterInstantiation isInst res procs).2 then Sem.errN else .nil,
+            (Order.resolveAfterInstantiation isInst res procs).1) ∧
+    Go.run (Sem.filterPrims g) Progs.fas_Filter [Sem.encInts l, .str "f"] () = some (Sem.encInts (l.filter g), ()) :=
+  ⟨Sem.resolveAfterInstantiation_sem procs isInst res errOk [], Sem.fasFilter_sem g l⟩
 
 end Ioc.C14
